@@ -901,7 +901,7 @@ fn evaluate(rep: &Report, kf: &KnownFindings, case: &Case, scratch: &Path, tag: 
 
 pub fn run(ctx: &Ctx) {
     let mut ctx = ctx.clone();
-    ctx.shrink_iters = ctx.shrink_iters.min(120);
+    ctx.shrink_iters = ctx.shrink_iters.min(40);
     let ctx = &ctx;
     let rep = Report::new(
         ctx,
@@ -924,6 +924,7 @@ pub fn run(ctx: &Ctx) {
     let scratch = Scratch::new(&format!("c25-{}", ctx.seed));
     let spath = scratch.path().to_path_buf();
 
+    let unlisted = std::sync::atomic::AtomicBool::new(false);
     // pinned regression schedules (one per known / fixed finding) from the corpus directory
     let corpus_dir = verif_root().join("corpus").join("C25");
     let mut pinned: Vec<PathBuf> = std::fs::read_dir(&corpus_dir).map(|rd| rd.flatten().map(|e| e.path()).filter(|p| p.extension().map(|x| x == "json").unwrap_or(false)).collect()).unwrap_or_default();
@@ -934,6 +935,7 @@ pub fn run(ctx: &Ctx) {
         let Some(c) = case_from_json(&cv) else { continue };
         if let Ok(o) = evaluate(&rep, &kf, &c, &spath, "pinned_corpus_case") {
             for f in o.unknown {
+                unlisted.store(true, Ordering::Relaxed);
                 let h = run_history(&c, &spath).ok();
                 rep.violation(Violation { signature: f.signature, summary: format!("{} (pinned case {})", f.summary, p.display()), replay: h.map(|h| render_history(&c, &h)).unwrap_or(cv.clone()) });
             }
@@ -987,6 +989,8 @@ pub fn run(ctx: &Ctx) {
                         let sig = f.signature.clone();
                         if kf.lookup("C25", &sig).is_some() {
                             rep.class("history_with_known_finding");
+                        } else {
+                            unlisted.store(true, Ordering::Relaxed);
                         }
                         rep.violation(Violation { signature: sig, summary: format!("[{name}] {}", f.summary), replay: render_history(&case, &h) });
                     }
@@ -1016,10 +1020,10 @@ pub fn run(ctx: &Ctx) {
     });
     rep.set_extra("enumerated_configurations", json!(exhaustive.into_inner().unwrap()));
 
-    // random histories
-    let cases = ctx.cases(240, 4_000);
+    // random histories (skipped when the pinned / enumerated histories already produced an unlisted violation: the first failure wins)
+    let cases = if unlisted.load(Ordering::Relaxed) { 0 } else { ctx.cases(240, 4_000) };
     let out = run_prop(ctx, 25, cases, case_strategy, |c| {
-        if rep.stopped() {
+        if rep.stopped() || cases == 0 {
             return Ok(());
         }
         let o = evaluate(&rep, &kf, c, &spath, "random_history")?;
